@@ -10,6 +10,7 @@ import DTML.Lemmas.Cache
 import DTML.GenNs
 import DTML.GenStack
 import DTML.Lemmas.Call
+import DTML.Lemmas.Fetch
 set_option linter.unusedVariables false
 namespace DTML.Props.C02
 open DTML.Render
@@ -715,5 +716,37 @@ theorem gen_len_is_model (flen : Frame → Int) (st : St) :
   simp only [GenStack.lenGen, lenLoop_spec, GenStack.iterOf, GenStack.dataOf, GenStack.tdOf]
   simp only [if_neg Bool.false_ne_true, Int.zero_add]
   rw [List.map_reverse, sum_reverse_int]
+/-! #### how dtml-var obtains its value: the fetch part of `Var.render`, translated from the source on every run
+
+`GenFetch.fetchGen` is regenerated on every run by translating `DT_Var.Var.render` statement by statement from its top to
+the `fmt=` stage (harness/trans_fetch.py): `val = self.expr; if val is None:` - the tag names a variable - `if name in
+md:` (a walk down the stack that calls nothing), then `md[name]` (the lookup with auto-call); `else:` `missing` when the
+tag has it, else `raise KeyError(name)`; an expression is evaluated (`missing` does not apply to it); then the null test
+`'null' in args and not val and val != 0`.  `url` / `absolute_url()` are outside the interpreter model (a tag of the
+model has no `url` attribute: `url := none`). -/
+
+/-- **A dtml-var with `missing` / `null` on a name is looked up as the source says**: membership first, `missing` or
+KeyError for an undefined name, one `md[name]` for a defined one, the null test on the value - `renderBlk` on `.var`. -/
+theorem gen_var_fetch_name_is_model (env : Env) (fuel : Nat) (n : Text) (hq : Bool) (missing null : Option Text)
+    (absUrl : Val → St → Res Val × St) (st : St) (h : (missing.isSome || null.isSome) = true) :
+    GenFetch.fetchGen env fuel (.name n) ⟨missing, null, none⟩ absUrl (Lemmas.Fetch.afterNull env hq) st =
+      renderBlk env (fuel + 1) (.var (.name n) hq missing null) st := by
+  show _ = (if (missing.isSome || null.isSome) = true then _ else _)
+  rw [if_pos h]
+  unfold GenFetch.fetchGen GenFetch.mdContains
+  dsimp only
+  cases hl : lookupStack env st.stack n st.trace with
+  | mk r tr =>
+    cases r with
+    | missing => cases missing <;> rfl
+    | raise e => rfl
+    | val v stack' => exact Lemmas.Fetch.bind_item_is_fetchVar env fuel n hq ⟨missing, null, none⟩ _
+
+/-- **… and on an expression**: `expr.eval(md)`, no `missing`, the null test on the value. -/
+theorem gen_var_fetch_expr_is_model (env : Env) (fuel : Nat) (e : Expr) (hq : Bool) (missing null : Option Text)
+    (absUrl : Val → St → Res Val × St) (st : St) :
+    GenFetch.fetchGen env fuel (.expr e) ⟨missing, null, none⟩ absUrl (Lemmas.Fetch.afterNull env hq) st =
+      renderBlk env (fuel + 1) (.var (.expr e) hq missing null) st :=
+  Lemmas.Fetch.bind_eval_is_fetchVar env fuel e hq ⟨missing, null, none⟩ st
 
 end DTML.Props.C02
